@@ -52,12 +52,13 @@ const (
 	CtFaultClockJump
 	CtTimersFired
 	CtSpawned
+	CtFinalizersRun
 	NumCounters
 )
 
 // CounterNames for evidence.
 var CounterNames = [NumCounters]string{"pool_get", "pool_get_hit", "pool_get_new", "pool_put",
-	"fault_putdrop", "fault_miss", "fault_gc", "gc_dropped_objects", "steps", "task_switches", "inner_yields", "fault_stall", "blocked_yields", "spin_breaks", "fault_clock_jump", "timers_fired", "library_goroutines_as_tasks"}
+	"fault_putdrop", "fault_miss", "fault_gc", "gc_dropped_objects", "steps", "task_switches", "inner_yields", "fault_stall", "blocked_yields", "spin_breaks", "fault_clock_jump", "timers_fired", "library_goroutines_as_tasks", "finalizers_run"}
 
 // FaultDen is the denominator of all fault rates.
 const FaultDen = 256
@@ -134,7 +135,9 @@ type Sim struct {
 	pointsInStep int
 	coopProgress int // successful cooperative operations (lock taken, value sent/received)
 	mail         []*mailItem
+	fin          finState
 	finishedRun  bool
+	inRun        bool
 	clock
 
 	// measurements
@@ -379,15 +382,19 @@ func Blocked() bool {
 //
 //go:norace
 func Locked() {
-	if s := cur; s != nil && s.running != nil && getg() == s.running.g {
-		s.running.lockDepth++
+	if s := cur; s != nil {
+		if t := s.running; t != nil && getg() == t.g {
+			t.lockDepth++
+		}
 	}
 }
 
 //go:norace
 func Unlocking() {
-	if s := cur; s != nil && s.running != nil && getg() == s.running.g && s.running.lockDepth > 0 {
-		s.running.lockDepth--
+	if s := cur; s != nil {
+		if t := s.running; t != nil && getg() == t.g && t.lockDepth > 0 {
+			t.lockDepth--
+		}
 	}
 }
 
@@ -400,13 +407,26 @@ func Unlocking() {
 //go:norace
 func Spawn(fn func()) {
 	s := cur
-	if s == nil || s.finishedRun || (s.running != nil && getg() != s.running.g) {
+	var running *Task
+	if s != nil {
+		running = s.running
+	}
+	if s == nil || s.finishedRun || (running != nil && getg() != running.g) {
 		go fn()
 		return
 	}
 	// Called by the released task, or by the harness's set-up code before Run
 	// (e.g. a constructor that starts a background goroutine).
-	t := &Task{ID: len(s.tasks), Name: "started-by-library", sim: s, resume: make(chan int), parked: siteStart,
+	s.startTask("started-by-library", fn)
+}
+
+// startTask creates a non-root simulated task (a goroutine the library
+// started, or the finalizer run of a gc event). Callers: the released task,
+// set-up code before Run, or the scheduler itself.
+//
+//go:norace
+func (s *Sim) startTask(name string, fn func()) {
+	t := &Task{ID: len(s.tasks), Name: name, sim: s, resume: make(chan int), parked: siteStart,
 		fn: func(*Task) { fn() }, started: true}
 	n := len(s.tasks)
 	bigger := make([]*Task, n+1)
@@ -415,7 +435,7 @@ func Spawn(fn func()) {
 	}
 	bigger[n] = t
 	s.tasks = bigger
-	if s.running != nil {
+	if s.inRun {
 		m := len(s.spawned)
 		sp := make([]*Task, m+1)
 		for i := 0; i < m; i++ {
@@ -482,6 +502,7 @@ func (s *Sim) Run(estSteps int) {
 		s.wg.Add(1)
 		go t.main() // goroutine creation: set-up happens-before every task
 	}
+	s.inRun = true
 	raceDisable()
 	runnable := make([]*Task, n)
 	for i := 0; i < n; i++ {
@@ -671,6 +692,7 @@ func (s *Sim) Run(estSteps int) {
 		}
 	}
 	s.finishedRun = true
+	s.inRun = false
 	raceEnable()
 	close(stop)
 	s.wg.Wait()
